@@ -19,10 +19,12 @@
 #pragma once
 #include <stdlib.h>
 #include <string.h>
+#include <unistd.h>
 
 #include <memory>
 #include <stdexcept>
 #include <string>
+#include <system_error>
 #include <thread>
 #include <utility>
 #include <vector>
@@ -599,6 +601,11 @@ struct RunInDtor {
   ~RunInDtor() { f(); }
 };
 
+inline uint64_t& thread_fallbacks() {
+  static uint64_t n = 0;
+  return n;
+}
+
 template <class F>
 void in_context(int ctx, F&& f) {
   switch (ctx) {
@@ -612,8 +619,21 @@ void in_context(int ctx, F&& f) {
       } catch (const std::exception&) {}
       break;
     case OTHER_THREAD: {
-      std::thread t([&] { f(); });
-      t.join();
+      // a thread that cannot be created (EAGAIN on an overloaded machine) must not become a finding
+      bool ran = false;
+      for (int attempt = 0; attempt < 100 && !ran; attempt++) {
+        try {
+          std::thread t([&] { f(); });
+          t.join();
+          ran = true;
+        } catch (const std::system_error&) {
+          usleep(20000);
+        }
+      }
+      if (!ran) {
+        thread_fallbacks()++;
+        f();
+      }
       break;
     }
     default: f(); break;
@@ -876,6 +896,7 @@ struct Checker {
   // `plans`: every sequence is run once per context plan.
   void sequences(size_t maxlen, const char* text, const std::vector<int>& plans = {ALL_PLAIN}) {
     Table tab;
+    r.note(std::string("unmerged-closure:") + Sys::cname());  // a crash while the reference closure is built names the right container
     quiet_closure(tab);
     r.note(std::string("unmerged:") + Sys::cname());
     uint64_t nseq = 0;
@@ -922,6 +943,11 @@ struct Checker {
         }
         if (p == len) break;
       }
+    }
+    if (thread_fallbacks()) {
+      r.exhaustive = false;
+      r.notes.push_back(vf::fmt("%llu calls planned for a fresh thread ran on the main thread because no thread could be created", (unsigned long long)thread_fallbacks()));
+      thread_fallbacks() = 0;
     }
     if (!r.bound.empty()) r.bound += "; ";
     std::string pl;
